@@ -124,7 +124,9 @@ GDef(name, es, pred) == [name |-> name, es |-> es, pred |-> pred]
 
 C01_GlobalCases ==
   LET pats  == { <<La>>, <<Lab>>, <<Or(La, Lb)>>, <<Loop(1, -1, FALSE, In(<<La, Lb>>))>>, <<Loop(0, -1, TRUE, Cls("any")), Lb>>,
-                 <<Loop(1, 2, FALSE, La)>>, <<NotIn(<<La>>)>> }
+                 <<Loop(1, 2, FALSE, La)>>, <<NotIn(<<La>>)>>,
+                 <<Sub("t", <<La>>), Loop(0, 1, FALSE, Ref("t"))>>,
+                 <<Sub("t", <<La, Loop(0, 1, FALSE, Ref("t")), Lb>>)>> }
       preds == { <<>>, PredLenAtLeast(2), PredIsAB, PredNot(PredIsAB) }
       uses  == { <<Ref("p")>>, <<Ref("p"), Ref("p")>>, <<Lb, Ref("p")>>, <<Ref("p"), La>>,
                  <<Loop(1, -1, FALSE, Ref("p"))>>, <<Or(Ref("p"), Lb)>>, <<Loop(0, 1, TRUE, Ref("p")), Lb>> }
@@ -167,4 +169,67 @@ AmountsUpTo(n) ==
     \cup {[k |-> "skip", s |-> i] : i \in 0..n}
     \cup {[k |-> "skiptake", s |-> i, t |-> j] : i \in 0..n, j \in 0..n}
     \cup {[k |-> "last", n |-> i] : i \in 1..n}
+
+(* ===================================================================== C05 *)
+PStr(s)  == [k |-> "str", v |-> s]
+PNum(n)  == [k |-> "num", v |-> n]
+PVar(x)  == [k |-> "var", name |-> x]
+PBin(op, l, r) == [k |-> "bin", op |-> op, l |-> l, r |-> r]
+PUn(op, e) == [k |-> "un", op |-> op, e |-> e]
+SRet(e)  == [k |-> "ret", e |-> e]
+SSet(x, e) == [k |-> "set", name |-> x, e |-> e]
+SIf(c, th, el) == [k |-> "if", c |-> c, th |-> th, el |-> el]
+
+WStr(s)  == [k |-> "str", s |-> s]
+WName(n) == [k |-> "name", name |-> n]
+
+C05_Trans ==
+  << [name |-> "tdup", stmts |-> <<SRet(PBin("+", PVar("match"), PVar("match")))>>],
+     [name |-> "tcap", stmts |-> <<SRet(PBin("+", PVar("x"), PStr(<<33>>)))>>],
+     [name |-> "tnum", stmts |-> <<SRet(PVar("matchNumber"))>>],
+     [name |-> "tlen", stmts |-> <<SRet(PBin("*", PVar("matchLength"), PNum(2)))>>],
+     [name |-> "tif",  stmts |-> <<SIf(PBin("==", PVar("match"), PStr(<<ba>>)), <<SRet(PStr(<<bA>>))>>, <<>>), SRet(PBin("+", PStr(<<60>>), PVar("y")))>>],
+     [name |-> "tset", stmts |-> <<SSet("v", PUn("tail", PVar("match"))), SRet(PBin("+", PVar("v"), PUn("head", PVar("match"))))>>] >>
+
+C05_Items ==
+  { WStr(<<60>>), WStr(<<>>), WStr(<<ba, bb>>), WName("x"), WName("y"), WName("nope"),
+    WName("value"), WName("matchNumber"), WName("startOffset"), WName("endOffset"),
+    WName("lineNumber"), WName("columnNumber"), WName("totalMatches") }
+    \cup { WName(C05_Trans[j].name) : j \in 1..Len(C05_Trans) }
+
+C05_Bodies ==
+  { <<Cap("x", Cls("any")), Loop(0, 1, FALSE, Cap("y", Lb))>>,
+    <<Cap("x", Grp(<<Loop(1, -1, FALSE, La)>>))>>,
+    <<Or(Grp(<<Cap("x", La)>>), Grp(<<Cap("y", Lb)>>))>>,
+    <<Lab>> }
+
+C05_Withs ==
+  { <<i>> : i \in C05_Items } \cup { <<i, j>> : i \in C05_Items, j \in C05_Items }
+    \cup { <<WStr(<<60>>), WName("x"), WName("tcap"), WStr(<<62>>)>>,
+           <<WName("tdup"), WName("nope"), WName("value"), WName("tnum")>>,
+           <<WName("y"), WName("y"), WName("tif")>> }
+
+(* ===================================================================== C06 *)
+C06_Withs == { <<WStr(<<>>)>>, <<WStr(<<120>>)>>, <<WStr(<<120, 121, 122>>)>>, <<WName("value"), WName("value")>>,
+               <<WName("matchNumber")>> }
+C06_Bodies == { <<La>>, <<Lab>>, <<Loop(1, -1, FALSE, La)>>, <<Cls("any")>>, <<Lit(<<bc>>)>> }
+
+(* ===================================================================== C13 *)
+(* capture-free bodies                                                      *)
+C13_Bodies ==
+  { <<La>>, <<Lab>>, <<Or(La, Lb)>>, <<In(<<La, Lb>>)>>, <<NotIn(<<La>>)>>, <<Loop(1, -1, FALSE, Or(La, Lb))>>,
+    <<Loop(0, -1, TRUE, Cls("any")), Lb>>, <<La, Loop(0, 1, FALSE, Lb)>>, <<Loop(1, 2, FALSE, La)>>,
+    <<Or(Lab, Or(La, Lb))>>, <<Loop(0, -1, FALSE, In(<<Rng(<<ba>>, <<bb>>)>>)), Lb>>, <<Anc("linestart"), Cls("any")>> }
+(* a use context maps "what stands for the body" (X1, X2, X3: the first,    *)
+(* second, third reference) to a command body                               *)
+(* the three spellings of one (body, use) pair; the use index selects the   *)
+(* same context in each                                                     *)
+UsesSeq(X1, X2, X3) ==
+  << <<X1>>, <<Lb, X1>>, <<X1, La>>, <<Loop(1, -1, FALSE, X1)>>, <<Or(AsLit(X1), Lb)>>, <<Loop(0, 1, TRUE, X1), Lb>>,
+     <<X1, X2>>, <<X1, Lb, X2>>, <<Or(AsLit(X1), X2)>>, <<X1, Loop(0, -1, FALSE, X2)>>, <<X1, X2, X3>>,
+     <<Loop(0, 1, FALSE, X1), X2, Loop(1, 2, FALSE, X3)>> >>
+NUses == 12
+Written(B)  == UsesSeq(Grp(B), Grp(B), Grp(B))
+InlineSub(B) == UsesSeq(Sub("s", B), Ref("s"), Ref("s"))
+GlobalRef(B) == UsesSeq(Ref("s"), Ref("s"), Ref("s"))
 =============================================================================
